@@ -432,12 +432,27 @@ def check_special(case):
             pass
         except Exception as e:
             out.append(('C18-missing-structure-wrong-exception:%s:%s' % (what, type(e).__name__), _exc(e)))
+    # names are not case sensitive (Message('adt_a01') is an ADT_A01): a restating profile must not change that
+    restating = {m: copy_ref(T.message_ref(v, m))}
+    ltext = 'MSH|^~\\&|A|B|C|D|20200101||%s|1|P|%s' % (S.msh9_text(v, m, R.DEFAULT_EC).lower(), v)
+    for what, plain, withp in (('Message', lambda: Message(m.lower(), version=v), lambda: Message(m.lower(), version=v, reference=restating)),
+                               ('parse_message', lambda: P.parse_message(ltext), lambda: P.parse_message(ltext, message_profile=restating))):
+        try:
+            a = plain().name
+        except Exception:
+            continue        # not accepted without a profile either: nothing to compare
+        try:
+            b = withp().name
+            if a != b:
+                out.append(('C18-restating-profile-changes-lower-case-name:%s' % what, '%s %s: %r vs %r' % (v, m, a, b)))
+        except Exception as e:
+            out.append(('C18-restating-profile-refuses-lower-case-name:%s:%s' % (what, type(e).__name__), '%s %s: %s' % (v, m.lower(), _exc(e))))
     pdir = os.path.join(common.REPO, 'tests', 'profiles')
     if case.get('files') and os.path.isdir(pdir):
         try:
             legacy = hl7apy.load_message_profile(os.path.join(pdir, 'old_pharm_h4'))
             name = sorted(legacy)[0]
-            for what, fn in (('Message', lambda: Message(name, reference=legacy)),
+            for what, fn in (('Message', lambda: Message(name, reference=legacy)), ('Message:lower-case', lambda: Message(name.lower(), reference=legacy)),
                              ('parse_message', lambda: P.parse_message('MSH|^~\\&|A|B|C|D|20200101||RAS^O17^RAS_O17|1|P|2.5', message_profile=legacy))):
                 try:
                     fn()
